@@ -361,3 +361,16 @@ pub fn record(args: &Args) {
     let summary = json!({"cases": runs, "evaluations": total, "nontrivial": runs, "counters": {"linkage_events": total}, "samples": [], "violations": [], "extra": {"groups": groups, "runs": index}});
     std::fs::write(args.req("out"), serde_json::to_string(&summary).unwrap()).expect("write summary");
 }
+
+pub fn replay_one(v: &Value) -> bool {
+    silence_panics();
+    let mut st = Stats::default();
+    let prop = v["property"].as_str().unwrap_or("C17").to_string();
+    guard_case(&mut st, &prop, "replay-linkage", &v["line"], |st| replay_line(st, &prop, &v["line"]));
+    let mut hit = false;
+    for x in st.violations.iter().filter(|x| x.property == prop) {
+        println!("reproduced: {}", x.what);
+        hit = true;
+    }
+    hit
+}
